@@ -49,7 +49,20 @@ def run(t, budget=1.0):
         return pc.finish()
 
     def outcome(resp):
-        return resp.split(" ", 1)[0]
+        oc = resp.split(" ", 1)[0]
+        if oc == "SEGV":
+            # "SEGV <fault address - end of buffer>": a fault far BELOW the start of the buffer comes from a pointer that wrapped
+            # around (hostile 64-bit blockLength / length added to a pointer).  Whether such an access faults depends on what
+            # happens to be mapped there, so it is not a reproducible verdict, and the property speaks of bytes at or beyond
+            # p+n: counted as inconclusive, never reported (DESIGN 9.7)
+            try:
+                off = int(resp.split(" ")[1])
+            except (IndexError, ValueError):
+                off = 0
+            if off < -(1 << 20):
+                res.cls("inconclusive_fault_far_below_the_buffer")
+                return "BELOW"
+        return oc
 
     def body(data):
         entry, mi, L = pc.draw_target(data)
@@ -145,6 +158,10 @@ def run(t, budget=1.0):
                 if oc == "OUTLIMIT":
                     res.cls("inconclusive_output_limit")
                     continue
+                if oc == "BELOW":
+                    if family == "hostile":
+                        continue
+                    oc = "SEGV"   # without hostile header values no pointer can wrap: an ordinary verdict
                 if oc == "OK" and "view extends past the buffer" in resp:
                     pc.fail("unchecked-view-extent:%s" % cmd.replace(" ", "-"), entry,
                             {"cmd": line, "config": cfg, "n": n, "full": full, "expect": "OK-or-ASSERT", "actual": resp[:300]},
